@@ -44,8 +44,19 @@ namespace BitSerializer::Detail
 		{
 			// The previous read could reach the end of stream (eofbit/failbit are set), that blocks any seeking
 			mStream.clear();
-			if (mStream.seekg(static_cast<std::streamoff>(pos)).fail()) {
-				return false;
+			if (mStream.seekg(static_cast<std::streamoff>(pos)).fail())
+			{
+				// Non-seekable stream: moving forward is still possible by discarding the data in between
+				if (pos < mStreamPos) {
+					return false;
+				}
+				mStream.clear();
+				const auto skipSize = static_cast<std::streamsize>(pos - mStreamPos);
+				if (mStream.ignore(skipSize).gcount() != skipSize)
+				{
+					mStream.setstate(std::ios_base::failbit);
+					return false;
+				}
 			}
 		}
 
